@@ -307,8 +307,8 @@ PROPS['C02'] = dict(
                'class (plain, Result, throwing, Future, SharedFuture, Task) with two instrumented executors are executed '
                'by the library and by the reference interpreter; final state, value / error code / exception identity and '
                'the ordered list of invoked callbacks must agree (values are transformed +1 and errors carry a payload so '
-               'that a skipped or doubled step and a replaced failure are visible).',
-    jobs=pipe_jobs('pipeline'))
+               'that a skipped or doubled step and a replaced failure are visible). The SharedFuture observer family runs in addition for the flattening of a returned SharedFuture that still has other holders (Tracked payload).',
+    jobs=lambda tier: pipe_jobs('pipeline')(tier) + [dict(target='shared', family='shared', mode='random', cases=8000 if tier == 'quick' else 150000, workers=2, timeout=900 if tier == 'quick' else 3000)])
 PROPS['C12'] = dict(
     level='exploration', assumptions=PIPE_ASSUME, level_note=PIPE_NOTE + ' LazyContract heads are not generated (see known findings / DESIGN).',
     technique='rapidcheck-generated lazy pipelines x start mode / abandonment; nothing-before-start, reference model and '
